@@ -48,6 +48,13 @@ Idx(k) == 1..Len(Nodes(k))
 Has(nd, idx) == idx >= nd.first /\ idx <= nd.last
 E(nd, idx) == LET e == nd.log[idx - nd.first + 1] IN [t |-> e.t, p |-> e.p, y |-> e.y]
 Unknown == [t |-> -1, p |-> -1, y |-> -1]
+(* The commit index the entries in the node's STORAGE answer for.  While a Ready is outstanding (held) raft has stepped    *)
+(* further than what the application persisted: nd.commit is raft's in-memory commit index, which then refers to raft's    *)
+(* in-memory log (unstable entries, or a snapshot just restored from a MsgSnap and not yet saved), whereas nd.log is what  *)
+(* was saved up to the outstanding Ready together with nd.hs.  E.g. a held follower whose storage still carries a stale    *)
+(* uncommitted suffix receives a snapshot: commit jumps to the snapshot index in memory, the suffix in storage is          *)
+(* replaced only when the next Ready is saved.  Until the release the storage is judged by the persisted commit index.     *)
+CommitS(nd) == IF nd.held THEN Min2(nd.commit, nd.hs.commit) ELSE nd.commit
 NoCt == 1000000
 
 (* ----------------------------- clauses -------------------------------- *)
@@ -90,26 +97,26 @@ StateMachineSafetyBad(k) ==
     {w \in Pairs(k) :
         LET na == Nodes(k)[w[1]]
             nb == Nodes(k)[w[2]]
-        IN \E i \in Max2(na.first, nb.first)..Min2(Min2(na.commit, nb.commit), Min2(na.last, nb.last)) : ~EqEnt(na, nb, i)}
+        IN \E i \in Max2(na.first, nb.first)..Min2(Min2(CommitS(na), CommitS(nb)), Min2(na.last, nb.last)) : ~EqEnt(na, nb, i)}
 
-MaxCommit(k) == Max({Nodes(k)[j].commit : j \in Idx(k)} \cup {0})
+MaxCommit(k) == Max({CommitS(Nodes(k)[j]) : j \in Idx(k)} \cup {0})
 
 (* extend the committed history with what the nodes of line k have committed *)
 Extend(k, g) ==
     [idx \in 1..Max2(Len(g), MaxCommit(k)) |->
         IF idx <= Len(g) /\ g[idx] # Unknown THEN g[idx]
-        ELSE LET hs == {j \in Idx(k) : Nodes(k)[j].commit >= idx /\ Has(Nodes(k)[j], idx)}
+        ELSE LET hs == {j \in Idx(k) : CommitS(Nodes(k)[j]) >= idx /\ Has(Nodes(k)[j], idx)}
              IN IF hs = {} THEN Unknown ELSE E(Nodes(k)[CHOOSE j \in hs : \A j2 \in hs : j <= j2], idx)]
 
 ExtendCt(k, g, ct) ==
     [idx \in 1..Max2(Len(g), MaxCommit(k)) |->
         IF idx <= Len(ct) THEN ct[idx]
-        ELSE Min({Nodes(k)[j].term : j \in {j \in Idx(k) : Nodes(k)[j].commit >= idx}})]
+        ELSE Min({Nodes(k)[j].term : j \in {j \in Idx(k) : CommitS(Nodes(k)[j]) >= idx}})]
 
 NeverRewrittenBad(k, g) ==
     {j \in Idx(k) :
         LET nd == Nodes(k)[j]
-        IN \E idx \in nd.first..Min2(Min2(nd.commit, nd.last), Len(g)) : g[idx] # Unknown /\ E(nd, idx) # g[idx]}
+        IN \E idx \in nd.first..Min2(Min2(CommitS(nd), nd.last), Len(g)) : g[idx] # Unknown /\ E(nd, idx) # g[idx]}
 
 (* "never removes": an entry a node held at the previous line that equals the globally committed entry at its index *)
 (* is still held (or compacted away) now                                                                            *)
